@@ -12,6 +12,7 @@ pub mod c09;
 pub mod c10;
 pub mod c11;
 pub mod c11_hist;
+pub mod c11_order;
 pub mod c12;
 pub mod c13;
 pub mod c14;
